@@ -190,7 +190,11 @@ class CallModelsMixin:
                     el = self.iter_elem(pos[1], st, node)
                 dd = pos[1].dep if len(pos) > 1 else EMPTY
                 mm = pos[1].mdep if len(pos) > 1 else EMPTY
-                return self.fresh(node, tys or {"?"}, "new", elem=el, dep=dd, mdep=mm, kind={"N"})
+                tag = "new"
+                insts = sorted(t for t in tys if t.startswith("inst:"))
+                if len(insts) == 1:
+                    tag = "obj:" + insts[0][5:]
+                return self.fresh(node, tys or {"?"}, tag, elem=el, dep=dd, mdep=mm, kind={"N"})
             if attr == "__init__":
                 return NONE
             return self.unknown_result(node, pos)
